@@ -190,6 +190,27 @@ def name_arguments(tree):
     return count[0]
 
 
+def transformed_copy(mode, suffix="_q"):
+    """a scratch copy of the analysed tree (VERIF_REPO_ROOT or /repo) with one transformation applied everywhere; (path, number of rewrites)"""
+    src_root = os.environ.get("VERIF_REPO_ROOT", "/repo")
+    scratch = tempfile.mkdtemp(prefix="batchie-verif-alpha-", dir="/var/tmp")
+    subprocess.check_call(["rsync", "-a", "--exclude", ".git", src_root.rstrip("/") + "/", scratch + "/"])
+    total = 0
+    files = []
+    for root, _, fs in os.walk(os.path.join(scratch, "src", "batchie")):
+        files += [os.path.join(root, f) for f in fs if f.endswith(".py") and not f.endswith("_test.py")]
+    files.append(os.path.join(scratch, "nextflow", "scripts", "batchie.py"))
+    for path in files:
+        if not os.path.exists(path):
+            continue
+        tree = ast.parse(open(path).read())
+        k = hoist_returns(tree) if mode == "hoist-returns" else (name_arguments(tree) if mode == "name-arguments" else rename_locals(tree, suffix))
+        if k:
+            open(path, "w").write(ast.unparse(tree) + "\n")
+            total += k
+    return scratch, total
+
+
 def main():
     suffix = "_q"
     only = None
